@@ -91,9 +91,25 @@ def r_dispatch(ck: Checker, f: Func, rule: str = "R-DISPATCH") -> None:
         key = k_none(norm(G(cv)))
         mv = None
         form = None
+        pending_unsupported: list[str] = []
         for il in inner:
-            if set(il.assign) - {key}:
-                raise Unsupported(f"accept: candidate loop decides on {sorted(il.assign)}", lp)
+            stores0 = [st for st in il.stmts if isinstance(st, ast.Assign) and len(st.targets) == 1 and isinstance(st.targets[0], ast.Name)
+                       and _getattr_visit(st.value, visitor) == cv]
+            if stores0:
+                mv = stores0[-1].targets[0].id
+            if il.assign.get(key) is False and il.outcome == "break":
+                form = form or "break"
+            extra = set(il.assign) - {key}
+            if extra:
+                benign = all(k in (k_is(cv, "object"), k_eq(cv, "object")) for k in extra)
+                if il.outcome in ("break", "return") and il.assign.get(key) is not False and not benign:
+                    problems.append(f"MRO loop is left on {sorted(extra)[0]} before a class with a visit_<Class> method was found (later classes are not tried)")
+                    continue
+                if not benign:
+                    pending_unsupported.append(f"accept: candidate loop decides on {sorted(il.assign)}")
+                    continue
+                if il.outcome in ("break", "return") and il.assign.get(key) is not False:
+                    continue  # `object` ends the search: the same as cutting the MRO before it
             stores = [st for st in il.stmts if isinstance(st, ast.Assign) and len(st.targets) == 1 and isinstance(st.targets[0], ast.Name)
                       and _getattr_visit(st.value, visitor) == cv]
             if stores:
@@ -110,6 +126,8 @@ def r_dispatch(ck: Checker, f: Func, rule: str = "R-DISPATCH") -> None:
                     problems.append("MRO loop does not stop at the first class that has a visit_<Class> method")
             elif il.outcome not in ("fall", "continue"):
                 problems.append("MRO loop stops at a class without a visit method")
+        if pending_unsupported and not problems:
+            raise Unsupported(pending_unsupported[0], lp)
         if form is None:
             problems.append("MRO loop does not stop at the first class that has a visit_<Class> method")
             form = "break"
